@@ -59,11 +59,15 @@ def gen_dataset(rng, system=None, nv=None, nq=None, natoms=None, lattice=None, d
         a = b = numpy.zeros((nq, np_))
     elif data_class == "poly2":
         a, b = rng.uniform(-1.5, 1.5, size=(nq, np_)), numpy.zeros((nq, np_))
-    else:   # poly3
+    else:   # poly3, generic
         a, b = rng.uniform(-1.5, 1.5, size=(nq, np_)), rng.uniform(-2, 2, size=(nq, np_))
     weights = rng.integers(1, 13, size=nq).astype(float) if rng.random() < 0.5 else 10 ** rng.uniform(-2, 2, size=nq)
     spec = Spectrum(v0, w0, g0, a, b, weights, natoms)
     freqs = spec.omega(volumes)
+    if data_class == "generic":
+        # smooth but not polynomial in ln V: only a least-squares method has a well-defined reference (its own polynomial)
+        x = numpy.log(volumes / v0)[:, None, None]
+        freqs = freqs * numpy.exp(0.02 * numpy.sin(6.0 * x + rng.uniform(0, 6.28, size=(nq, np_))))
     freqs[:, 0, :3] = [0.0, -float(rng.uniform(0.01, 0.5)), float(rng.uniform(-0.2, 0.2))][int(rng.integers(0, 3))]
     qcoords = rng.uniform(-0.5, 0.5, size=(nq, 3))
     qcoords[0] = 0.0
